@@ -641,10 +641,14 @@ MC_PROGRAMS = {
     "s2t21": mc_program("s2t21", {"a": ["a.1", "a.2"], "b": ["b.1"]}),
     "s2cof": mc_program("s2cof", {"a": ["a.1"], "b": ["b.1"]}, cof=["a"]),
 }
-MC_ACTIONS = ["Begin", "Return", "Raise", "StartWorkflowCommit", "StartStageClaim", "StartStagePlan",
-              "StartTaskCommit", "CancelStageCommit", "ForceCommit", "AppendInTxn", "RecordOwn", "Publish",
-              "CompleteTaskCommit", "CompleteStageCommit", "CompleteStageErrorCommit", "SkipStageCommit",
-              "CompleteWorkflowCommit", "Rollback", "Crash"]
+# specification action -> name of its coverage line (MC_Events wraps the parameterised ones)
+MC_ACTIONS = {"Begin": "BeginEnv", "Return": "Return", "Raise": "MC_Raise", "StartWorkflowCommit": "StartWorkflowCommit",
+              "StartStageClaim": "StartStageClaim", "StartStagePlan": "StartStagePlan", "StartTaskCommit": "StartTaskCommit",
+              "CancelStageCommit": "CancelStageCommit", "ForceCommit": "Force", "AppendInTxn": "MC_AppendInTxn",
+              "RecordOwn": "MC_RecordOwn", "Publish": "Publish", "CompleteTaskCommit": "CompleteTaskCommit",
+              "CompleteStageCommit": "CompleteStageCommit", "CompleteStageErrorCommit": "CompleteStageErrorCommit",
+              "SkipStageCommit": "SkipStageCommit", "CompleteWorkflowCommit": "CompleteWorkflowCommit",
+              "Rollback": "MC_Rollback", "Crash": "MC_Crash"}
 MC_VIOL_RE = re.compile(r'<<\s*"VIOL",\s*"(\w+)",\s*"(\w*)",\s*"((?:[^"\\]|\\.)*)"\s*>>', re.S)
 
 
@@ -694,7 +698,7 @@ def model_check(cfg: dict, props: list[str], workers: int = 4, timeout: int = 14
             res.viols.append({"formula": formula, "act": actn, "state": state})
         if coverage:
             cov = r.coverage()
-            res.coverage = {a: cov.get(a, 0) for a in MC_ACTIONS}
+            res.coverage = {a: cov.get(n, 0) for a, n in MC_ACTIONS.items()}
         if r.rc != 0 or r.errors or not r.distinct:
             res.machinery = "\n".join(r.errors[:5]) + "\n" + r.out[-2500:]
         return res
